@@ -21,6 +21,7 @@ func init() {
 			ruleZ6(c)
 			ruleZ7(c)
 			ruleH3(c)
+			ruleX1(c) // a connection lost mid-frame closes the whole mux, which is what wakes the ttRPC client and fires the close notification Start waits for
 		},
 		explanation: "Time bounds and the behaviour of ttRPC on a cut connection are not decided.  Decided is the structure that termination and restartability rest on: every channel receive executed while the stub lock is held is a select with a second case that the end of the session makes ready (the close notification's channel) — the one bare receive, close() waiting for the server goroutine, is preceded on every path by closing the server; the close notification closes its channel before doing anything that may need the stub lock (Start holds it while waiting for that channel); the close notification registered with the ttRPC client carries a value created in that very Start activation and the teardown it triggers is control-dependent on comparing it with the stub's current session; every session resource set up by Start/connect, including the conditionally reused connection, is reset by a deferred cleanup on every failing exit; close() is only ever called with the stub lock held, resets started and conn, and the per-activation done channel is closed once, after the server result was sent to a channel of capacity >= 1; Wait only waits when started and Start refuses a started stub; Configure reports its result exactly once.",
 		notDecided: []string{
@@ -461,10 +462,11 @@ func ruleZ4(c *Ctx) {
 		c.ok("Z4", "caller/"+funcKey(cs.Caller), cs.Instr.Pos(), la.holds(cs.Instr, "stub.Mutex", 'W'), "close() is called from "+funcKey(cs.Caller)+" with the stub lock held",
 			"close() is called with lockset "+la.describe(cs.Instr)+": it races with Start/Stop on the session fields")
 	}
-	for _, fld := range []string{"started", "conn", "syncReq"} {
+	sr := startedField(m)
+	for _, fld := range []string{sr.field, "conn", "syncReq"} {
 		okR := false
 		for _, fs := range m.fieldStores(cl, stT, fld) {
-			if isNilConst(fs.Store.Val) || isConstBool(fs.Store.Val, false) {
+			if isNilConst(fs.Store.Val) || (fld == sr.field && sr.isClear(fs.Store.Val)) {
 				// unconditional on the started path
 				okR = true
 			}
@@ -624,8 +626,71 @@ func readsStarted(m *Module, v ssa.Value, depth int) bool {
 		}
 		return len(rets) > 0
 	}
+	sr := startedField(m)
+	if !sr.isBool {
+		bo, ok := v.(*ssa.BinOp)
+		if !ok || bo.Op != token.EQL {
+			return false
+		}
+		if k, isC := constInt(bo.Y); !isC || k != sr.k {
+			return false
+		}
+		v = bo.X
+	}
 	a := m.ap(v)
-	return a.PathString() == "started" && a.Root != nil && recvIsStub(m, a.Root)
+	return a.PathString() == sr.field && a.Root != nil && recvIsStub(m, a.Root)
+}
+
+// startedRep: how the stub records that it is started — a bool field, or a state field compared with one constant.
+type startedRep struct {
+	field  string
+	isBool bool
+	k      int64
+}
+
+var startedMemo *startedRep
+
+// startedField reads the representation off the method that answers "is the stub started".
+func startedField(m *Module) startedRep {
+	if startedMemo != nil {
+		return *startedMemo
+	}
+	sr := startedRep{field: "started", isBool: true}
+	if f := m.methodOpt(pkgStub, "stub", "isStarted"); f != nil {
+		for _, r := range returnsOf(f) {
+			for _, v := range returnValues(r, 0) {
+				if bo, ok := v.(*ssa.BinOp); ok && bo.Op == token.EQL {
+					if k, isC := constInt(bo.Y); isC {
+						if a := m.ap(bo.X); len(a.Path) == 1 && recvIsStub(m, a.Root) {
+							sr = startedRep{field: a.Path[0], isBool: false, k: k}
+						}
+					}
+					continue
+				}
+				if a := m.ap(v); len(a.Path) == 1 && a.Root != nil && recvIsStub(m, a.Root) {
+					sr = startedRep{field: a.Path[0], isBool: true}
+				}
+			}
+		}
+	}
+	startedMemo = &sr
+	return sr
+}
+
+func (sr startedRep) isSet(v ssa.Value) bool {
+	if sr.isBool {
+		return isConstBool(v, true)
+	}
+	k, ok := constInt(v)
+	return ok && k == sr.k
+}
+
+func (sr startedRep) isClear(v ssa.Value) bool {
+	if sr.isBool {
+		return isConstBool(v, false)
+	}
+	k, ok := constInt(v)
+	return ok && k != sr.k
 }
 
 func recvIsStub(m *Module, v ssa.Value) bool {
@@ -651,7 +716,7 @@ func ruleZ6(c *Ctx) {
 		if f.Name() == "New" || (f.Parent() != nil && strings.HasPrefix(f.Parent().Name(), "With")) {
 			continue
 		}
-		for _, fld := range []string{"rpcm", "rpcl", "rpcs", "rpcc", "conn", "started", "syncReq"} {
+		for _, fld := range []string{"rpcm", "rpcl", "rpcs", "rpcc", "conn", startedField(m).field, "syncReq"} {
 			for _, fa := range m.fieldAddrs(f, stT, fld) {
 				base := funcKey(f) + "/" + fld
 				ord[base]++
@@ -672,12 +737,15 @@ func ruleZ7(c *Ctx) {
 	c.rule("Z7", "started means started: Start sets stub.started only where no failing return can follow (after registration succeeded and the configuration result arrived), and nothing but close() clears it", 2)
 	st := m.method(pkgStub, "stub", "Start")
 	stT := m.named(pkgStub, "stub")
+	sr := startedField(m)
 	n := 0
-	for _, fs := range m.fieldStores(st, stT, "started") {
-		if !isConstBool(fs.Store.Val, true) {
+	var sets []ssa.Instruction
+	for _, fs := range m.fieldStores(st, stT, sr.field) {
+		if !sr.isSet(fs.Store.Val) {
 			continue
 		}
 		n++
+		sets = append(sets, fs.Store)
 		bad := ""
 		for _, r := range returnsOf(st) {
 			if !instrCanReach(fs.Store, r) {
@@ -692,13 +760,34 @@ func ruleZ7(c *Ctx) {
 		c.ok("Z7", "Start/started", fs.Store.Pos(), bad == "", "Start marks the stub started only when it is going to return success", bad+": a failed Start leaves the stub marked started, so the retry is refused with 'already started' and Wait blocks")
 	}
 	if n == 0 {
-		c.violate("Z7", "Start/started", st.Pos(), "Start marks the stub started", "no store of true into stub.started")
+		c.violate("Z7", "Start/started", st.Pos(), "Start marks the stub started", "no store marking the stub started in Start")
 	}
+	closeFn := m.method(pkgStub, "stub", "close")
 	for _, f := range m.funcsInPkg(pkgStub) {
-		for _, fs := range m.fieldStores(f, stT, "started") {
-			if isConstBool(fs.Store.Val, false) {
-				c.ok("Z7", "cleared-by/"+funcKey(f), fs.Store.Pos(), f == m.method(pkgStub, "stub", "close"), "only close() marks the stub not started", funcKey(f)+" clears the started flag")
+		for _, fs := range m.fieldStores(f, stT, sr.field) {
+			if !sr.isClear(fs.Store.Val) {
+				continue
 			}
+			okC := f == closeFn
+			if !okC && f == st {
+				// Start recording an intermediate (not started) state before it marks the stub started
+				okC = true
+				for _, s := range sets {
+					if instrCanReach(s, fs.Store) {
+						okC = false
+					}
+				}
+			}
+			if !okC && f.Parent() == st {
+				// Start's failure cleanup: only when Start is returning an error
+				for _, cd := range controls(fs.Store.Block()) {
+					cd = normCond(cd)
+					if bo, ok := cd.V.(*ssa.BinOp); ok && isNilConst(bo.Y) && isErrorType(bo.X.Type()) && ((bo.Op == token.NEQ && cd.Pol) || (bo.Op == token.EQL && !cd.Pol)) {
+						okC = true
+					}
+				}
+			}
+			c.ok("Z7", "cleared-by/"+funcKey(f), fs.Store.Pos(), okC, "only close() (or a Start that is failing or has not yet marked it started) marks the stub not started", funcKey(f)+" clears the started flag")
 		}
 	}
 }
